@@ -329,7 +329,7 @@ def placement(e: dict) -> str:
     return s
 
 
-def view_of(h, names) -> dict:
+def view_of(h) -> dict:
     """Observable content of a handle: name -> bytes (or an exception marker)."""
     out = {}
     for fn in sorted(set(h.filenames())):
@@ -418,7 +418,7 @@ class Runner:
             else:
                 before = None
                 if exp[0] == 'reject' and checked:
-                    before = (disk_digest(wd), view_of(h, None))
+                    before = (disk_digest(wd), view_of(h))
                 try:
                     self.real_op(h, cfg, op)
                     raised = None
@@ -443,7 +443,7 @@ class Runner:
                         return None, False, (kindname, k)
                     result = 'rejected:' + why + ':' + type(raised).__name__
                     if before is not None:
-                        after = (disk_digest(wd), view_of(h, None))
+                        after = (disk_digest(wd), view_of(h))
                         if after != before:
                             what = 'files on disk' if after[0] != before[0] else 'handle contents'
                             acc.fail('readonly_state_changed' if why == 'readonly' else 'rejected_op_changed_state', case,
@@ -481,15 +481,17 @@ class Runner:
                 ('add_file(existing)', lambda: r.add_file(tgt, b'12345', arch_index=cfg[2])),
             ]
         before = disk_digest(self.workdir)
-        before_view = view_of(r, None)
+        before_view = view_of(r)
         for label, fn in attempts:
             try:
                 fn()
             except Exception:  # noqa: BLE001 - any exception is a rejection
                 continue
+            if label.endswith('(same data)'):
+                continue    # rewriting identical bytes changes nothing: only "state unchanged" is demanded of it
             acc.fail('readonly_accepted', case, where + f"{label} on a freshly opened mode='r' archive returned "
                      f'without raising', **self.sig(cfg, model, op=label, why='readonly'))
-        after_view = view_of(r, None)
+        after_view = view_of(r)
         if disk_digest(self.workdir) != before:
             acc.fail('readonly_state_changed', case, where + "rejected mutations on a mode='r' archive changed the "
                      'files on disk', **self.sig(cfg, model, op='any', why='readonly'))
@@ -702,14 +704,14 @@ def ops_for(model: Model, menu: dict, limit) -> list:
                 if menu['new']:
                     out.append(('new', nm, FORMS[(i + 1) % 3]))
                 if errors:
-                    out.append(('write', nm, FORMS[i % 3], sizes[1], 1))
+                    out.append(('write', nm, FORMS[i % 3], sizes[-1], 1))
                     out.append(('del', nm, FORMS[(i + 1) % 3]))
             else:
                 for s in sizes:
                     out.append(('write', nm, FORMS[(i + 1) % 3], s, 1))
                 out.append(('del', nm, FORMS[(i + 2) % 3]))
                 if errors:
-                    out.append(('add', nm, FORMS[(i + 2) % 3], sizes[1], 0))
+                    out.append(('add', nm, FORMS[(i + 2) % 3], sizes[-1], 0))
         out.append(('flush',))
     if model.disk is not None:
         if menu['ro']:
